@@ -6,6 +6,8 @@ namespace sim {
 
 using json = nlohmann::ordered_json;
 
+inline double NowS() { return std::chrono::duration<double>(std::chrono::steady_clock::now().time_since_epoch()).count(); }
+
 // strings that are not valid UTF-8 (storage-damaged texts) travel hex-encoded so that plans stay byte-exact
 inline bool Utf8Ok(const std::string& s) {
   for (size_t i = 0; i < s.size();) {
@@ -45,11 +47,12 @@ inline Op OpFromJson(const json& j) {
 }
 struct KnownFinding {
   std::string id, property, oracle, trigger, status, what;
-  bool Matches(const Violation& v) const {
-    if (property != v.property || oracle != v.oracle) return false;
-    if (!trigger.empty() && trigger.back() == '*') return v.trigger.compare(0, trigger.size() - 1, trigger, 0, trigger.size() - 1) == 0;
-    return trigger == v.trigger;
+  static bool Glob(const char* p, const char* t) {   // '*' matches any run of characters
+    if (*p == 0) return *t == 0;
+    if (*p == '*') { for (const char* q = t;; ++q) { if (Glob(p + 1, q)) return true; if (*q == 0) return false; } }
+    return *t != 0 && *p == *t && Glob(p + 1, t + 1);
   }
+  bool Matches(const Violation& v) const { return property == v.property && oracle == v.oracle && Glob(trigger.c_str(), v.trigger.c_str()); }
 };
 
 struct Plan {
@@ -189,12 +192,14 @@ inline std::string DeathKindFromStderr(const std::string& err, int status) {
     auto sp = s.find_first_of(" :"); return "asan:" + s.substr(0, sp);
   }
   if (auto s = grab("VERIF-TERMINATE: ", 80); !s.empty()) return "terminate:" + s;
+  if (err.find("VERIF-TIMEOUT: ") != std::string::npos) { auto s = grab("VERIF-TIMEOUT: ", 80); return s.empty() ? std::string("timeout") : "timeout:" + s; }
   if (auto s = grab("runtime error: ", 50); !s.empty()) {
     // keep the generic part of the UBSan message (drop concrete numbers)
     std::string g; for (char ch : s) { if (ch >= '0' && ch <= '9') break; g += ch; }
     while (!g.empty() && (g.back() == ' ' || g.back() == '-')) g.pop_back();
     return "ubsan:" + g;
   }
+  if (WIFSIGNALED(status) && WTERMSIG(status) == SIGPROF) return "timeout";
   if (WIFSIGNALED(status)) return "signal:" + std::to_string(WTERMSIG(status));
   if (WIFEXITED(status)) return "exit:" + std::to_string(WEXITSTATUS(status));
   return "unknown";
@@ -212,6 +217,18 @@ inline std::string DeathKindFromStderr(const std::string& err, int status) {
   fflush(stderr);
   _exit(78);
 }
+
+// a single run (or a single replayed plan) that does not finish within this many seconds is reported as a fault ("timeout")
+inline void OnAlarm(int) {
+  const char* tag = TimeoutTag(); char buf[160]; size_t n = 0;
+  for (const char* p = "VERIF-TIMEOUT: "; *p; ++p) buf[n++] = *p;
+  for (const char* p = tag; *p && n < 150; ++p) buf[n++] = *p;
+  buf[n++] = '\n'; (void)!write(2, buf, n); _exit(79);
+}
+inline void ArmWatchdog(unsigned secs) {   // CPU time of this process (user+sys), far less load-dependent than wall time
+  struct itimerval tv{}; tv.it_value.tv_sec = secs; setitimer(ITIMER_PROF, &tv, nullptr);
+}
+inline unsigned RunTimeoutSecs() { static const unsigned v = [] { const char* s = getenv("VERIF_RUN_TIMEOUT"); return s ? static_cast<unsigned>(atoi(s)) : 25u; }(); return v; }
 
 struct ForkResult {
   Outcome out;
@@ -239,7 +256,10 @@ inline ForkResult RunForked(Engine& e, const Plan& planIn, bool generate, const 
     Plan plan = planIn;
     if (generate) plan.ops.clear();
     RunIO io{ pfd[1] };
+    signal(SIGPROF, OnAlarm);
+    ArmWatchdog(RunTimeoutSecs());
     Outcome o = ExecuteRun(e, plan, generate, nullptr, nullptr, nullptr, io, false);
+    ArmWatchdog(0);
     json r; r["kind"] = static_cast<int>(o.kind); r["hash"] = o.hash; r["steps"] = o.steps;
     if (o.kind == Outcome::VIOLATION) { r["p"] = o.v.property; r["o"] = o.v.oracle; r["t"] = o.v.trigger; r["d"] = o.v.detail; r["s"] = o.v.step; }
     io.Line("R " + r.dump(-1, ' ', false, json::error_handler_t::replace));
@@ -289,11 +309,11 @@ inline ForkResult RunForked(Engine& e, const Plan& planIn, bool generate, const 
 
 // ---------------------------------------------------------------- minimiser (fork per candidate)
 struct Minimiser {
-  Engine& e; const Paths& paths; Plan base; std::string cls; int budget; int reruns{ 0 };
+  Engine& e; const Paths& paths; Plan base; std::string cls; int budget; int reruns{ 0 }; double t0{ NowS() }; double wallBudget{ 120.0 };
   Minimiser(Engine& e, const Paths& p, Plan base, std::string cls, int budget) : e{ e }, paths{ p }, base{ std::move(base) }, cls{ std::move(cls) }, budget{ budget } {}
 
   bool Still(const std::vector<Op>& ops) {
-    if (reruns >= budget) return false;
+    if (reruns >= budget || NowS() - t0 > wallBudget) { reruns = budget; return false; }
     ++reruns;
     Plan p = base; p.ops = ops;
     auto fr = RunForked(e, p, false, paths);
@@ -376,7 +396,6 @@ struct Args {
   bool trace{ false }, noMinimise{ false }, listOnly{ false };
 };
 
-inline double NowS() { return std::chrono::duration<double>(std::chrono::steady_clock::now().time_since_epoch()).count(); }
 
 struct WorkerSample { size_t nops{ 0 }; int faults{ 0 }; json plan; bool set{ false }; };
 
@@ -476,6 +495,7 @@ int Main(int argc, char** argv, Engine& e) {
   uint64_t runsDone = 0, nontrivialRuns = 0, stepsDone = 0;
   std::vector<std::pair<uint64_t, std::string>> pendingViolations;   // (run, class) first unknown violation reported by workers
   std::vector<uint64_t> crashedRuns;
+  std::set<uint64_t> watchdogRuns;   // runs whose worker was stopped by the CPU-time watchdog (may not reproduce exactly at the threshold)
   bool stopEarly = false;
 
   auto spawn = [&](int w, uint64_t startRun, WorkerCtl& ctl) {
@@ -488,6 +508,7 @@ int Main(int argc, char** argv, Engine& e) {
       // workers are quiet on stderr unless tracing (sanitizer reports are re-captured by the parent's forked re-run)
       if (!a.trace) { int dn = open("/dev/null", O_WRONLY); if (dn >= 0) { dup2(dn, 2); close(dn); } }
       RunIO io{ pfd[1] };
+      signal(SIGPROF, OnAlarm);
       Stats st; std::vector<uint64_t> stv, grv;
       std::unordered_set<uint64_t> states, grams, seqs;
       const size_t cap = 1500000;
@@ -498,7 +519,9 @@ int Main(int argc, char** argv, Engine& e) {
         if (!recheck) io.Line("B " + std::to_string(r));
         stv.clear(); grv.clear();
         Stats dummy;
-        Outcome o = ExecuteRun(e, p, true, recheck ? &dummy : &st, recheck ? nullptr : &stv, recheck ? nullptr : &grv, RunIO{}, false);
+        ArmWatchdog(RunTimeoutSecs());
+        Outcome o = ExecuteRun(e, p, true, recheck ? &dummy : &st, recheck ? nullptr : &stv, recheck ? nullptr : &grv, RunIO{}, a.trace);
+        ArmWatchdog(0);
         if (recheck) { io.Line("C " + std::to_string(r) + " " + std::to_string(o.hash)); return; }
         ++nRuns; nSteps += static_cast<uint64_t>(o.steps);
         for (auto h : stv) if (states.size() < cap) states.insert(h);
@@ -603,6 +626,7 @@ int Main(int argc, char** argv, Engine& e) {
           // worker died in run ctl.current: remember and restart after it
           if (ctl.current >= 0) {
             crashedRuns.push_back(static_cast<uint64_t>(ctl.current));
+            if (WIFEXITED(status) && WEXITSTATUS(status) == 79) watchdogRuns.insert(static_cast<uint64_t>(ctl.current));
             const uint64_t next = static_cast<uint64_t>(ctl.current) + static_cast<uint64_t>(W);
             if (next < a.firstRun + totalRuns && NowS() - t0 < maxSecs && crashedRuns.size() < 200) { spawn(w, next, ctl); ++live; }
           } else if (!WIFEXITED(status) || WEXITSTATUS(status) != 0) {
@@ -629,7 +653,8 @@ int Main(int argc, char** argv, Engine& e) {
     Plan p = MakePlan(e, a, run, kf);
     auto fr = RunForked(e, p, true, paths);
     if (fr.out.kind == Outcome::OK) {
-      if (expectCrash) { fprintf(stderr, "MACHINERY: run %" PRIu64 " crashed in a worker but not when re-executed\n", run); ++machineryFaults; }
+      if (expectCrash && watchdogRuns.count(run)) { total.Add("slow_run_at_watchdog_threshold_not_reproduced"); }
+      else if (expectCrash) { fprintf(stderr, "MACHINERY: run %" PRIu64 " crashed in a worker but not when re-executed\n", run); ++machineryFaults; }
       else { fprintf(stderr, "MACHINERY: run %" PRIu64 " violated in a worker but not when re-executed\n", run); ++machineryFaults; }
       return;
     }
